@@ -8,6 +8,8 @@ What is enumerated (real TCPServer / H11Protocol / H2Protocol / HTTPStream on bo
   final message; 1 byte; 3 chunks with an empty one in the middle; end signalled by an extra empty
   message; one 70 000 byte chunk (> HTTP/2 window, > one transport buffer); 20 000 bytes (> max
   frame) + tail}, with an eagerly reading client;
+* HTTP/2 clients announcing SETTINGS_INITIAL_WINDOW_SIZE 100 and 1 (every DATA frame waits for a
+  WINDOW_UPDATE);
 * HTTP/2 extras: trailers promised and sent, to clients with and without `te: trailers`; a 103
   early hint before the response;
 * client pacing (Explorer A, bounds M mid-flight injections / S preemptions): HTTP/2 client that
@@ -99,6 +101,10 @@ def scenarios(tier: str) -> List[Any]:
                     for method in ("GET", "HEAD"):
                         for ch in ("c0", "c3", "cf"):
                             out.append((engine, carrier, method, 200, "rep", ch, extra, "eager"))
+                for pace, chs in (("win100", ("c3", "cf")), ("win1", ("c1", "c3"))):
+                    for ch in chs:
+                        for hdrs in ("none", "cl"):
+                            out.append((engine, carrier, "GET", 200, hdrs, ch, "", pace))
             # pacing
             paces = ["net", "gates+net"] + (["acks", "gates+acks", "smallacks"] if carrier in ("h2", "h2c") else [])
             for pace in paces:
@@ -113,7 +119,7 @@ def scenarios(tier: str) -> List[Any]:
 
 
 def bounds(tier: str, params: Any) -> dict:
-    if params[7] == "eager":
+    if params[7] in ("eager", "win100", "win1"):
         return {"M": 0, "S": 0, "R": 0}
     if tier == "quick":
         return {"M": 1, "S": 2, "R": 0}
@@ -153,6 +159,9 @@ def plan(params: Any, chooser: Any) -> tuple:
     m = method.encode()
     te = extra == "trailers-te"
     conn: Dict[str, Any] = {"carrier": "h1" if carrier == "h10" else carrier, "methods": [m]}
+    settings = {"win100": {4: 100}, "win1": {4: 1}}.get(pace)  # the client's SETTINGS_INITIAL_WINDOW_SIZE
+    if settings:
+        conn["h2_settings"] = settings
     if carrier in ("h1", "h10"):
         client = [("data", 0, h1_request(m, b"/r", version=b"1.0" if carrier == "h10" else b"1.1"))]
     elif carrier == "h2":
@@ -160,15 +169,15 @@ def plan(params: Any, chooser: Any) -> tuple:
         fields = h2_request_headers(m, b"/r", extra=[(b"te", b"trailers")] if te else [])
         client = [("cmd", 0, "preface"), ("cmd", 0, "headers", 1, fields, True)]
     else:
-        hs = [(b"Connection", b"Upgrade, HTTP2-Settings"), (b"Upgrade", b"h2c"), (b"HTTP2-Settings", h2c_settings_header())]
+        hs = [(b"Connection", b"Upgrade, HTTP2-Settings"), (b"Upgrade", b"h2c"), (b"HTTP2-Settings", h2c_settings_header(settings))]
         if te:
             hs.append((b"TE", b"trailers"))
         client = [("data", 0, h1_request(m, b"/r", hs)), ("cmd", 0, "flush")]
     sources = [("client", client)]
     if carrier in ("h2", "h2c") and "acks" not in pace:
         # the live client's own WINDOW_UPDATE / SETTINGS ack frames leave it when a flush event fires
-        flush = [("cmd", 0, "flush")] * 6
-        if pace == "eager":
+        flush = [("cmd", 0, "flush")] * (420 if settings else 6)
+        if pace in ("eager", "win100", "win1"):
             client.extend(flush)
         else:
             sources.append(("flush", flush))
@@ -184,7 +193,7 @@ def plan(params: Any, chooser: Any) -> tuple:
         sources.append(("app", [("release", "g")] * (len(CHUNKINGS[ch]) + 1)))
     sc = {"level": "conn", "conns": {0: conn}, "client_factory": make_xclient,
           "app_factory": paced_app_factory({"http": prog}), "config": {"keep_alive_timeout": 5}, "sources": sources,
-          "midflight": pace != "eager", "sigs": pace != "eager"}
+          "midflight": pace not in ("eager", "win100", "win1"), "sigs": pace not in ("eager", "win100", "win1")}
     return engine, sc, {"headers": headers, "body": body, "trailers": trailers, "te": te}
 
 
